@@ -1061,6 +1061,22 @@ func TestVerifC13(t *testing.T) {
 			}
 		}
 		if len(fs) > 0 {
+			// a wrong link makes statuses and head flags wrong too: keep the root cause only
+			linkLevel := false
+			for _, f := range fs {
+				if strings.HasPrefix(f.key, "obiclean/d1/spurious-link") || strings.HasPrefix(f.key, "obiclean/d1/missing-link") {
+					linkLevel = true
+				}
+			}
+			if linkLevel {
+				kept := fs[:0]
+				for _, f := range fs {
+					if !strings.HasPrefix(f.key, "obiclean/d1/status:") && !strings.HasPrefix(f.key, "obiclean/d1/head-flag") {
+						kept = append(kept, f)
+					}
+				}
+				fs = kept
+			}
 			report(c, fs, g.String())
 		}
 	}
@@ -1186,13 +1202,20 @@ func TestVerifC13(t *testing.T) {
 		runtime.GOMAXPROCS(8)
 	}
 
-	// ---- sampled, supplementary part: native multi-worker runs. Never counted as exhaustive; it stops
-	// silently at 85% of the deadline so that it cannot turn the exhaustive part into a capped run ----
+	// ---- sampled, supplementary part: native multi-worker runs. Never counted as exhaustive; it has its
+	// own time limit (15 s quick, 120 s thorough, never beyond 85% of the deadline) and stops silently ----
+	phaseB := time.Now()
+	limitB := 15 * time.Second
+	if thorough {
+		limitB = 120 * time.Second
+	}
 	budget := time.Duration(0)
 	if d, err := strconv.ParseFloat(os.Getenv("VERIF_DEADLINE_S"), 64); err == nil && d > 0 {
 		budget = time.Duration(0.85 * d * float64(time.Second))
 	}
-	outOfTime := func() bool { return budget > 0 && time.Since(start) > budget }
+	outOfTime := func() bool {
+		return (budget > 0 && time.Since(start) > budget) || time.Since(phaseB) > limitB
+	}
 	truncated := false
 	reps := 3
 	if thorough {
